@@ -622,6 +622,14 @@ func (k *Kernel) Reset() {
 }
 
 // Put installs an empty rule so that an update finds something to replace.
+// Drop removes a rule from the tables without a request (a rule the data plane lost, e.g. removed out of band): a
+// later removal request for it is answered ENOENT.
+func (k *Kernel) Drop(key Key) {
+	k.mu.Lock()
+	delete(k.Rules, key)
+	k.mu.Unlock()
+}
+
 func (k *Kernel) Put(key Key) {
 	k.mu.Lock()
 	k.Rules[key] = &Rule{Key: key}
